@@ -51,7 +51,7 @@ def sources(tier, seed, ctx):
                      'prelude': n % 17 == 3})
     # many outputs (the xor stage and the final OR at widths around 8, 9, 16, 17): every output is an input or its
     # negation; the two operands differ in exactly one output or not at all
-    for w in ([8, 9, 17] if tier == 'quick' else [7, 8, 9, 10, 15, 16, 17, 18, 25]):
+    for w in ([8, 9, 17, 33, 65, 129] if tier == 'quick' else [7, 8, 9, 10, 15, 16, 17, 18, 25, 32, 33, 63, 64, 65, 66, 128, 129, 193, 257]):
         for diff in (0, 1, w):
             a = [3, [['NOT', [1]], ['NOT', [2]], ['NOT', [3]]]]
             oa = [1 + (j % 6) for j in range(w)]
